@@ -39,6 +39,23 @@ def gen_session(r, tier):
     times = [0.0]
     for _ in range(T - 1):
         times.append(round(times[-1] + r.choice([1.0, 1.0, 0.5, 2.5, r.uniform(0.2, 3.0)]), 3))
+    # frames that do not share labels, or that lose a border cell (tracking is by proximity)
+    if T > 1 and r.random() < 0.12:
+        spec["ids_per_frame"] = True
+        if spec.get("ids") in ("contig0", "contig1"):
+            spec["ids"] = "shuffle"
+    if T > 1 and r.random() < 0.10 and spec.get("keep") and len(spec["keep"]) > 7:
+        t_drop = r.randrange(1, T)
+        for c in r.sample(spec["keep"], len(spec["keep"])):
+            cand = [x for x in spec["keep"] if x != c]
+            trial = dict(spec, keep=cand)
+            try:
+                if TS.spec_ok(trial):
+                    TS.build_tissue(trial, t_drop)
+                    spec["keep_by_frame"] = {str(t): cand for t in range(t_drop, T)}
+                    break
+            except ValueError:
+                continue
     # degenerate but legal series: a repeated time stamp (frames built without time=) and / or
     # vertices that do not move at all: velocities become x/0 or 0/0, which the library answers with
     # FloatingPointError - on every thread, if its error-state handling is right
